@@ -255,9 +255,12 @@ func checkImpl(body hcl.Body, b bodyDesc, s schemaDesc, tag string, perTypeOrder
 		vf.Reach("two-step")
 	}
 	// three-step chain: partial, partial on the remainder, exhaustive on the second remainder
-	ka2, kb2 := ka+pick(na-ka+1), kb+pick(nb-kb+1)
+	ka2, kb2 := ka, kb
+	if vf.Param("chain3", 1) == 1 {
+		ka2, kb2 = ka+pick(na-ka+1), kb+pick(nb-kb+1)
+	}
 	p1, r1, e1 := body.PartialContent(s.hcl(0, ka, 0, kb))
-	if r1 != nil {
+	if r1 != nil && vf.Param("chain3", 1) == 1 {
 		p2, r2, e2 := r1.PartialContent(s.hcl(ka, ka2, kb, kb2))
 		if r2 != nil {
 			p3, e3 := r2.Content(s.hcl(ka2, na, kb2, nb))
